@@ -5,7 +5,16 @@
    in one End, (a) return something else than what was returned for the key
    before, (b) modify the inputs of the call, (c) modify another region that
    calls have seen (shared backing memory), (d) hand back a result that
-   aliases the proofs it was given.  Ground truth is kept beside the
+   aliases the proofs it was given.  The one writing operation, Mutate
+   (UpdateElementProof on one cell), is answered honestly from a fixed function
+   upd : Content -> Content of the cell's content alone - so cells that hold
+   the same content, however they came to hold it (the Mems of the model: an
+   original, a decoded copy, a deep copy ...), are left with the same content -
+   and dishonestly by (e) leaving a content other than the one this content
+   was updated to before (the outcome depends on how the value was obtained)
+   or (f) also writing a cell it was not given (a neighbouring element whose
+   proof lives in the spare capacity of this one, or the same element of a
+   copy whose proof shares its backing array).  Ground truth is kept beside the
    specification's state (world, first, acc); the invariants say that the
    specification rejects exactly the events that expose dishonesty, and that
    what it accepts is a function of the key.  The model stops at the first
@@ -17,8 +26,10 @@ VARIABLES st,      \* specification state [memo, open, seen]
           first,   \* first[m]: what m contained when it was first presented
           impl,    \* the honest function
           acc,     \* accepted <<key, result>> pairs (history)
-          last     \* classification of the last event: [bad, ok, kind]
-vars == <<st, world, first, impl, acc, last>>
+          last,    \* classification of the last event: [bad, ok, kind]
+          upd,     \* the honest update function on cell contents
+          org      \* org[m]: the content m held before its last accepted update ("none": never updated)
+vars == <<st, world, first, impl, acc, last, upd, org>>
 
 Init == /\ st = Fresh0
         /\ world \in [Mems -> Digests]
@@ -26,6 +37,8 @@ Init == /\ st = Fresh0
         /\ impl \in [Keys -> Results]
         /\ acc = {}
         /\ last = [bad |-> FALSE, ok |-> TRUE, kind |-> "init"]
+        /\ upd \in [Digests -> Digests]
+        /\ org = [m \in Mems |-> "none"]
 
 Present(m, d) == IF m \in DOMAIN first THEN first ELSE (m :> d) @@ first
 Exposes(m, d) == m \in DOMAIN first /\ first[m] # d      \* ground truth: m was modified since first shown
@@ -37,7 +50,7 @@ Begin(id, k, m) ==
   /\ last' = [bad |-> Exposes(m, e.d), ok |-> ok, kind |-> "begin"]
   /\ st' = IF ok THEN AfterBegin(st, e) ELSE st
   /\ first' = Present(m, e.d)
-  /\ UNCHANGED <<world, impl, acc>>
+  /\ UNCHANGED <<world, impl, acc, upd, org>>
 
 \* an End of call id that returns res, after the implementation rewrote memory to w
 End(id, res, w, fresh, kind) ==
@@ -49,7 +62,7 @@ End(id, res, w, fresh, kind) ==
   /\ st' = IF ok THEN AfterEnd(st, e) ELSE st
   /\ acc' = IF ok THEN acc \cup {<<c.key, res>>} ELSE acc
   /\ world' = w
-  /\ UNCHANGED <<first, impl>>
+  /\ UNCHANGED <<first, impl, upd, org>>
 
 EndHonest(id)   == End(id, impl[st.open[id].key], world, TRUE, "end")
 EndOther(id)    == \E r \in Results : /\ st.open[id].key \in DOMAIN st.memo /\ r # st.memo[st.open[id].key]
@@ -65,7 +78,28 @@ Audit(m) ==
   /\ last' = [bad |-> Exposes(m, e.d), ok |-> ok, kind |-> "audit"]
   /\ st' = IF ok THEN AfterAudit(st, e) ELSE st
   /\ first' = Present(m, e.d)
-  /\ UNCHANGED <<world, impl, acc>>
+  /\ UNCHANGED <<world, impl, acc, upd, org>>
+
+\* UpdateElementProof on cell m leaves content new there and the rest of memory as in w.  The key is the content
+\* of the cell (the update applied is fixed in this model).  The environment only updates cells nobody is reading.
+Mutate(m, new, w, kind) ==
+  LET e == [key |-> world[m], mem |-> m, d |-> world[m], d1 |-> new, res |-> new]
+      ok == MutOK(st, e)
+      wrong == e.key \in DOMAIN st.memo /\ st.memo[e.key] # new IN
+  /\ MutNotInUse(st, e)
+  /\ last' = [bad |-> Exposes(m, e.d) \/ wrong, ok |-> ok, kind |-> kind]
+  /\ st' = IF ok THEN AfterMut(st, e) ELSE st
+  /\ acc' = IF ok THEN acc \cup {<<e.key, new>>} ELSE acc
+  /\ world' = [w EXCEPT ![m] = new]
+  /\ first' = IF ok THEN (m :> new) @@ first ELSE Present(m, e.d)   \* the cell legitimately holds new from now on
+  /\ org' = IF ok THEN [org EXCEPT ![m] = e.d] ELSE org
+  /\ UNCHANGED <<impl, upd>>
+
+MutateHonest(m)  == Mutate(m, upd[world[m]], world, "mutate")
+MutateDiverge(m) == \E d \in Digests : /\ world[m] \in DOMAIN st.memo /\ d # st.memo[world[m]]
+                                       /\ Mutate(m, d, world, "mutate-diverge")
+MutateSpill(m)   == \E m2 \in Mems \ {m}, d \in Digests : d # world[m2] /\
+                      Mutate(m, upd[world[m]], [world EXCEPT ![m2] = d], "mutate-spill")
 
 \* one named action per kind of event, so that TLC's coverage shows that each kind occurs
 Live == ~last.bad
@@ -76,10 +110,15 @@ DoMutateOwn  == Live /\ \E id \in DOMAIN st.open : EndMutateOwn(id)
 DoMutateElse == Live /\ \E id \in DOMAIN st.open : EndMutateElse(id)
 DoAliased    == Live /\ \E id \in DOMAIN st.open : EndAliased(id)
 DoAudit      == Live /\ \E m \in Mems : Audit(m)
+DoMutate        == Live /\ \E m \in Mems : MutateHonest(m)
+DoMutateDiverge == Live /\ \E m \in Mems : MutateDiverge(m)
+DoMutateSpill   == Live /\ \E m \in Mems : MutateSpill(m)
 Next == DoBegin \/ DoEnd \/ DoOther \/ DoMutateOwn \/ DoMutateElse \/ DoAliased \/ DoAudit
+        \/ DoMutate \/ DoMutateDiverge \/ DoMutateSpill
 Spec == Init /\ [][Next]_vars
 
-TypeOK == /\ DOMAIN st.memo \subseteq Keys /\ \A k \in DOMAIN st.memo : st.memo[k] \in Results
+TypeOK == /\ DOMAIN st.memo \subseteq Keys \cup Digests
+          /\ \A k \in DOMAIN st.memo : st.memo[k] \in (IF k \in Keys THEN Results ELSE Digests)
           /\ DOMAIN st.open \subseteq Ids
           /\ DOMAIN st.seen \subseteq Mems /\ \A m \in DOMAIN st.seen : st.seen[m] \in Digests
 \* the specification never accepts two different results for one key
@@ -91,4 +130,11 @@ SeenIsFirst    == ~last.bad => st.seen = first
 Sound    == last.bad => ~last.ok
 \* ... and no event of an honest history is
 Complete == ~last.bad => last.ok
+\* "obtained how" does not matter: whenever memory is what the specification believes it to be (nothing written
+\* behind its back is still undetected), two cells that were updated from the same content hold the same content,
+\* and a cell that was never updated holds what it was first seen with
+Clean == \A m \in DOMAIN first : first[m] = world[m]
+ObtainedHowIrrelevant ==
+  (~last.bad /\ Clean) =>
+     \A m1, m2 \in Mems : (org[m1] # "none" /\ org[m1] = org[m2]) => world[m1] = world[m2]
 =============================================================================
